@@ -31,7 +31,9 @@
        awaited_completion_never_unseen : no process in `awaited` has a result between steps;
        no_timeout_due_at_last_check    : after every Worker::step at clock `now` no parked process
                                          has a timeout elapsed at `now` (for slices that do not
-                                         park with a timeout already due: `time_honest`, C05);
+                                         park with a timeout already due: `time_honest`, C05 — a premise
+                                         on PARKING slices only: a slice that ends runnable may end inside a
+                                         select whose timeout is due, `! [0]` at quantum 1);
        parked_has_no_unseen_message    : a process parked in an evaluated select has every receive
                                          cursor at the end of its mailbox (for slices that park
                                          honestly: `honest_run`, the select machine of C05).
